@@ -105,6 +105,10 @@ CHECKS.update({
             "Generated server histories (publish, session rotation, serial jumps, delta pruning, lagging mirror views) x 23 peer fault kinds at notification, snapshot and delta exchanges x reachable local states; whenever repository() hands out an RRDP repository the archive must record the announced version (304: the last synced one) and equal that version's server snapshot exactly.",
             "Oracle per DESIGN appendix B; rsync disabled so that not-updated means no data handed out; HTTP transport simulated.",
             "deterministic simulation: server history + peer fault injection, snapshot-equality oracle", "§5 C25"),
+    "C24": ("B (rrdp) in crash mode: kill points in archive writes, truncation and snapshot replacement", "fault_enumeration",
+            "For a client synced to a generated server history, one snapshot or (multi-)delta update is re-executed once per kill point (every archive write/truncate and the remove/rename steps; all points in thorough, a seeded sample in quick); the cache directory copied at the kill point is the crash image; from each distinct image the client restarts and the server history continues, including 304 and mirror-lag views. Oracle of Engine B at every later update.",
+            "Crash = process kill (page cache survives); tearing inside one write call and write reordering (power loss) are out of scope; histories are sampled, kill points of each explored update are enumerated.",
+            "deterministic simulation: kill-point enumeration with crash images, then continued server history", "§5 C24"),
     "C26": (ENGINE_E, "exploration",
             "Model-based operation sequences (publish/update/delete/fetch/fetch_if/reopen read-only or writable) over colliding and distinct names with sizes around page, header and free-space boundaries; results equal a BTreeMap model, metadata checks enforced, verify() succeeds after every operation.",
             "Restart = drop and reopen; mid-operation crashes belong to C24.",
